@@ -337,6 +337,105 @@ def run(ctx):
     ctx.attempt(_r12)
     ctx.attempt(_r13)
     ctx.attempt(_r14)
+    ctx.attempt(_r15)
+
+
+def _one_level_branches(fn_node):
+    """(If, index expression X, statements executed when X has ONE level) for every test on len(X.names) / X.nlevels"""
+    out = []
+    for s in walk_function(fn_node):
+        if not isinstance(s, ast.If) or not isinstance(s.test, ast.Compare) or len(s.test.ops) != 1:
+            continue
+        l, op, r = s.test.left, s.test.ops[0], s.test.comparators[0]
+        if const_value(l) is not None and const_value(r) is None:          # the canonical form writes `1 < len(X.names)`
+            flip = {ast.Lt: ast.Gt, ast.Gt: ast.Lt, ast.LtE: ast.GtE, ast.GtE: ast.LtE}
+            l, r, op = r, l, flip.get(type(op), type(op))()
+        x = None
+        if isinstance(l, ast.Call) and call_name(l) == "len" and len(l.args) == 1 and isinstance(l.args[0], ast.Attribute) and \
+                l.args[0].attr == "names":
+            x = l.args[0].value
+        elif isinstance(l, ast.Attribute) and l.attr == "nlevels":
+            x = l.value
+        c = const_value(r)
+        if x is None or not isinstance(c, int):
+            continue
+        if isinstance(op, ast.Eq) and c == 1 or isinstance(op, ast.Lt) and c == 2 or isinstance(op, ast.LtE) and c == 1:
+            out.append((s, x, s.body))
+        elif isinstance(op, ast.Gt) and c == 1 or isinstance(op, ast.GtE) and c == 2 or isinstance(op, ast.NotEq) and c == 1:
+            rest = list(s.orelse)
+            if s.body and isinstance(s.body[-1], (ast.Return, ast.Raise)):
+                # the several-level case leaves the function: what follows the If in its block is one-level code as well
+                for blk in ast.walk(fn_node):
+                    for fld in ("body", "orelse", "finalbody"):
+                        lst = getattr(blk, fld, None)
+                        if isinstance(lst, list) and s in lst:
+                            rest += lst[lst.index(s) + 1:]
+            out.append((s, x, rest))
+        else:
+            out.append((s, x, []))
+    return out
+
+
+def _r15(ctx):
+    """R-C13-15 (contradicting beliefs about one object): a branch chosen by the NUMBER OF LEVELS of an index (`len(X.names) == 1`)
+    holds for a plain Index and for a MultiIndex of one level alike; `X.name` is the level name for the first and None for the
+    second.  Where X is the index of a caller-supplied operand, the one-level branch must take the name from `X.names` - a lookup
+    of the level tables under `X.name` raises KeyError(None) for a signal over a one-level MultiIndex with a same-named level."""
+    prog = ctx.prog
+    ctx.rule("R-C13-15", floor=2, what="one-level branches read the level name of a caller-supplied index from .names, not .name")
+    for k, fi in sorted(prog.functions.items()):
+        if fi.module.name != MOD:
+            continue
+        for st, x, branch in _one_level_branches(fi.node):
+            xt = norm_text(x)
+            uses = [a for b in branch for a in ast.walk(b) if isinstance(a, ast.Attribute) and a.attr == "name" and norm_text(a.value) == xt]
+            if not uses:
+                ctx.holds(fi, st, "%s: the one-level branch of `%s` does not read %s.name" % (fi.qualname, norm_text(st.test), xt))
+                continue
+            # whose index is it?
+            external = None
+            if isinstance(x, ast.Name) and x.id in fi.params:
+                sites = []
+                for k2, f2 in prog.functions.items():
+                    if f2.module.name != MOD:
+                        continue
+                    for c in calls_in(f2.node):
+                        if fi.key in prog.resolve_call(f2, c) or (isinstance(c.func, ast.Attribute) and c.func.attr == fi.name):
+                            off = 1 if fi.params and fi.params[0] == "self" and isinstance(c.func, ast.Attribute) else 0
+                            i = fi.params.index(x.id) - off
+                            arg = c.args[i] if 0 <= i < len(c.args) else next((kw.value for kw in c.keywords if kw.arg == x.id), None)
+                            if arg is not None:
+                                sites.append((f2, arg))
+                if not sites:
+                    raise AnalysisError("%s: no call site found for the index parameter %r" % (fi.qualname, x.id))
+                external = [(f2, a) for f2, a in sites if _caller_supplied(f2, a)]
+            else:
+                external = [(fi, x)] if _caller_supplied(fi, x) else []
+            if external:
+                f2, a = external[0]
+                ctx.violated(fi, uses[0], "%s: in the branch for an index of one level, `%s.name` is used as the level name, and %s "
+                             "passes the index of a caller-supplied operand (`%s`): for a MultiIndex of one level .name is None "
+                             "while .names[0] is the level - the level tables have no key None (KeyError) / the result loses the name"
+                             % (fi.qualname, xt, f2.qualname, norm_text(a)))
+            else:
+                ctx.holds(fi, st, "%s: %s.name in the one-level branch, but %s is always an index built by the module itself "
+                          "(a plain Index when it has one level)" % (fi.qualname, xt, xt))
+
+
+def _caller_supplied(f, e):
+    """`<p>.index` with <p> a parameter of f or an attribute of self: an index object that belongs to the caller"""
+    if isinstance(e, ast.Attribute) and e.attr == "index":
+        b = e.value
+        if isinstance(b, ast.Name):
+            if b.id in f.params:
+                return True
+            defs = [st for st in walk_function(f.node) if isinstance(st, ast.Assign) and
+                    any(isinstance(t, ast.Name) and t.id == b.id for t in st.targets)]
+            return bool(defs) and all(isinstance(d.value, ast.Attribute) and is_self_attr(d.value) for d in defs)
+        return isinstance(b, ast.Attribute) and is_self_attr(b)
+    if isinstance(e, ast.Name) and e.id in f.params:
+        return not f.name.startswith("_")
+    return False
 
 
 def _kind_tests(test):
@@ -1074,6 +1173,49 @@ F2F = "Broadcaster._broadcast_frame_to_frame"
 
 def variants():
     out = []
+
+    def _one_level_body(tree):
+        f = find_func(tree, "_IndexLevelCache._make_new_index")
+        return next(st for st in f.body if isinstance(st, ast.If))
+
+    def name_of_one_level_index(tree):
+        st = _one_level_body(tree)
+        st.body = [parse_stmt("return pd.Index(self.index_levels[index.name].get_indexer_for(index) + self._offsets[index.name], "
+                              "name=index.name)")]
+        return True
+    out.append(witness("level tables looked up under index.name in the one-level branch", PATH, name_of_one_level_index, "R-C13-15"))
+
+    def name_kept_from_dot_name(tree):
+        st = _one_level_body(tree)
+        ret = st.body[-1]
+        kw = next(k for k in ret.value.keywords if k.arg == "name")
+        kw.value = ast.parse("index.name", mode="eval").body
+        return True
+    out.append(witness("re-coded one-level index named after index.name", PATH, name_kept_from_dot_name, "R-C13-15"))
+
+    def nlevels_test(tree):
+        st = _one_level_body(tree)
+        st.test = ast.parse("index.nlevels == 1", mode="eval").body
+        return True
+    out.append(twin("one-level branch chosen with index.nlevels == 1", PATH, nlevels_test))
+
+    def multi_first(tree):
+        f = find_func(tree, "_IndexLevelCache._make_new_index")
+        i = next(k for k, st in enumerate(f.body) if isinstance(st, ast.If))
+        st = f.body[i]
+        rest = f.body[i + 1:]
+        f.body[i:] = [ast.If(test=ast.parse("len(index.names) > 1", mode="eval").body, body=rest, orelse=[])] + st.body
+        ast.fix_missing_locations(f)
+        return True
+    out.append(twin("several-level branch written first, one-level code after it", PATH, multi_first))
+
+    def multi_first_dot_name(tree):
+        multi_first(tree)
+        f = find_func(tree, "_IndexLevelCache._make_new_index")
+        f.body[-1] = parse_stmt("return pd.Index(self.index_levels[index.name].get_indexer_for(index) + self._offsets[index.name], "
+                                "name=index.name)")
+        return True
+    out.append(witness("several-level branch first, then index.name for the one-level case", PATH, multi_first_dot_name, "R-C13-15"))
 
     def identity_fast_path(tree):
         f = find_func(tree, F2F)
